@@ -1,11 +1,1229 @@
-//! Engine N: simulated cluster (placeholder until the engine lands).
-use crate::common::kf::Verdicts;
+//! Engine N: a simulated cluster of real nun-db nodes in one process.
+//!
+//! Real: `process_request`, the replication loop and the supervisor (polled one message at a
+//! time), elections, oplog, sync, snapshots. Emulated: the byte transport only — a link is a
+//! pair of FIFO queues (the member's command channel in one direction, the serving client's
+//! channel in the other), with the connection set-up lines of `start_replication` and the
+//! disconnect handling of `tcp_ops::handle_client` mirrored here.
+//!
+//! Every connection endpoint, client session and start-up timer is a sequential process on its
+//! own OS thread; exactly one of them (or the controller) runs at any time (token passing). A
+//! thread gives the token back when it waits for input or reaches an election hook point. The
+//! controller picks the next activity with a seeded PRNG; a *tick* (letting a waiting election
+//! loop or a start-up timer go on) is only taken when nothing else is enabled: messages are
+//! faster than timeouts.
+use crate::common::node::{Node, NodeOpts};
+use crate::common::rng::Rng;
+use crate::common::*;
+use futures::channel::mpsc::Receiver;
+use nundb::bo::{Client, ClusterMember, ClusterRole, Databases, Response};
+use nundb::process_request::process_request;
+use serde_json::json;
+use std::cell::RefCell;
+use std::collections::{BTreeMap, HashMap, VecDeque};
+use std::sync::{Arc, Condvar, Mutex};
+use std::time::{Duration, Instant};
 
+pub const USER: &str = crate::common::node::USER;
+pub const PWD: &str = crate::common::node::PWD;
+
+#[derive(Clone, Debug, PartialEq)]
+pub enum Status {
+    Running,
+    AtPoint(String),
+    WaitInput,
+    /// client side of a link whose peer is gone: waits for its command channel to close
+    WaitClose,
+    Finished,
+}
+
+#[derive(Clone, Debug)]
+pub enum Input {
+    Line(String),
+    Eof,
+    Killed,
+}
+
+#[derive(Clone, Debug, PartialEq)]
+pub enum Kind {
+    /// serves a connection that node `from` opened to this node
+    Server { link: usize },
+    /// client side of a link (the thread nun-db's supervisor spawned)
+    ClientLink { link: usize },
+    /// ordinary client session
+    Session,
+    /// transient `join` connection
+    JoinConn,
+    /// start-up thread: ask to join, then the initial election
+    Starter,
+}
+
+pub struct ThreadSt {
+    pub name: String,
+    pub node: usize,
+    pub kind: Kind,
+    pub status: Status,
+    pub granted: bool,
+    pub inbox: VecDeque<Input>,
+    pub killed: bool,
+    /// ticks this thread was given while other activities were still enabled, since it last did something else
+    pub early_ticks: u32,
+    /// replies of a session thread
+    pub replies: Vec<(String, String, Vec<String>)>,
+}
+
+pub struct Link {
+    pub from: usize,
+    pub to: usize,
+    /// lines the client side sends before anything else (auth, set-primary|set-secoundary, replicate-since)
+    pub pre: VecDeque<String>,
+    /// the member's command channel (what the node wants to send to the peer)
+    pub cmd_rx: Option<Receiver<String>>,
+    pub a2b: VecDeque<String>,
+    /// what the serving client pushes (acks, ok, errors)
+    pub srv_rx: Option<Receiver<String>>,
+    pub b2a: VecDeque<String>,
+    pub server_tid: usize,
+    pub client_tid: usize,
+    pub open: bool,
+    pub cmd_closed: bool,
+    pub eof_sent_to_server: bool,
+    pub eof_sent_to_client: bool,
+}
+
+pub struct SimNode {
+    pub node: Option<Node>,
+    pub dbs: Option<Arc<Databases>>,
+    pub addr: String,
+    pub dir: String,
+    pub alive: bool,
+    pub process_id: u128,
+    pub repl_q: VecDeque<String>,
+    pub sup_q: VecDeque<String>,
+    pub starts: u32,
+}
+
+pub struct Inner {
+    pub threads: Vec<ThreadSt>,
+    pub links: Vec<Link>,
+    pub nodes: Vec<SimNode>,
+    pub steps: u64,
+    /// every line that crossed a link: (step, from node, to node, line)
+    pub link_log: Vec<(u64, usize, usize, String)>,
+    pub trace: Vec<String>,
+    pub decisions: Vec<u32>,
+    pub stuck: Option<String>,
+    pub expected_registrations: usize,
+    pub panics: Vec<String>,
+    pub election_wins: Vec<(usize, String)>,
+    pub ticks: u64,
+}
+
+pub struct Sim {
+    pub inner: Mutex<Inner>,
+    pub cv: Condvar,
+    pub id: u64,
+}
+
+thread_local! {
+    static CTX: RefCell<Option<(Arc<Sim>, usize)>> = RefCell::new(None);
+}
+
+lazy_static::lazy_static! {
+    /// Databases pointer -> (sim, node index); lets the transport hook find its simulation
+    static ref REGISTRY: Mutex<HashMap<usize, (Arc<Sim>, usize)>> = Mutex::new(HashMap::new());
+    static ref SIM_IDS: std::sync::atomic::AtomicU64 = std::sync::atomic::AtomicU64::new(1);
+}
+
+struct KillToken;
+
+fn is_tick_site(site: &str) -> bool {
+    site == "election:wait_registered" || site == "election:wait_acks" || site == "election:settle" || site == "starter:initial-election"
+}
+
+static INSTALL: std::sync::Once = std::sync::Once::new();
+
+/// Installs the global hook callbacks (point + transport) for Engine N.
+pub fn install_hooks() {
+    INSTALL.call_once(|| {});
+    nundb::verif::set_point_callback(Some(Arc::new(|site: &str| {
+        let ctx = CTX.with(|c| c.borrow().clone());
+        if let Some((sim, tid)) = ctx {
+            if site.starts_with("election_win:") {
+                let mut g = sim.inner.lock().unwrap();
+                let node = g.threads[tid].node;
+                g.election_wins.push((node, site["election_win:".len()..].to_string()));
+                let step = g.steps;
+                g.trace.push(format!("[{}] n{} claims victory via {}", step, node, &site["election_win:".len()..]));
+                return;
+            }
+            if site.starts_with("election:") || site == "replicate:after_apply" {
+                sim.park_point(tid, site);
+            }
+        }
+    })));
+    nundb::verif::set_transport(Some(Arc::new(|req: nundb::verif::LinkRequest| {
+        let key = Arc::as_ptr(&req.dbs) as usize;
+        let found = { REGISTRY.lock().unwrap().get(&key).cloned() };
+        if let Some((sim, node)) = found {
+            sim.client_link_main(node, req);
+        }
+    })));
+}
+
+impl Sim {
+    pub fn new() -> Arc<Sim> {
+        Arc::new(Sim {
+            inner: Mutex::new(Inner {
+                threads: vec![],
+                links: vec![],
+                nodes: vec![],
+                steps: 0,
+                link_log: vec![],
+                trace: vec![],
+                decisions: vec![],
+                stuck: None,
+                expected_registrations: 0,
+                panics: vec![],
+                election_wins: vec![],
+                ticks: 0,
+            }),
+            cv: Condvar::new(),
+            id: SIM_IDS.fetch_add(1, std::sync::atomic::Ordering::SeqCst),
+        })
+    }
+
+    // ------------------------------------------------------------ thread side
+    fn enter(self: &Arc<Sim>, tid: usize, dir: &str) {
+        nundb::verif::set_dir(Some(dir.to_string()));
+        CTX.with(|c| *c.borrow_mut() = Some((self.clone(), tid)));
+    }
+
+    fn register(self: &Arc<Sim>, name: String, node: usize, kind: Kind) -> usize {
+        let mut g = self.inner.lock().unwrap();
+        g.threads.push(ThreadSt { name, node, kind, status: Status::Running, granted: false, inbox: VecDeque::new(), killed: false, early_ticks: 0, replies: vec![] });
+        g.threads.len() - 1
+    }
+
+    /// Give the token back and wait until the controller lets this thread go on.
+    fn park(&self, tid: usize, st: Status) {
+        let mut g = self.inner.lock().unwrap();
+        let tick_site = matches!(&st, Status::AtPoint(s) if is_tick_site(s));
+        if !tick_site {
+            g.threads[tid].early_ticks = 0;
+        }
+        g.threads[tid].status = st;
+        g.threads[tid].granted = false;
+        self.cv.notify_all();
+        while !g.threads[tid].granted {
+            g = self.cv.wait(g).unwrap();
+        }
+        g.threads[tid].status = Status::Running;
+    }
+
+    fn park_point(&self, tid: usize, site: &str) {
+        self.park(tid, Status::AtPoint(site.to_string()));
+        let killed = { self.inner.lock().unwrap().threads[tid].killed };
+        if killed {
+            std::panic::resume_unwind(Box::new(KillToken));
+        }
+    }
+
+    fn wait_input(&self, tid: usize) -> Input {
+        loop {
+            self.park(tid, Status::WaitInput);
+            let mut g = self.inner.lock().unwrap();
+            if g.threads[tid].killed {
+                return Input::Killed;
+            }
+            if let Some(i) = g.threads[tid].inbox.pop_front() {
+                return i;
+            }
+        }
+    }
+
+    fn finish(&self, tid: usize) {
+        let mut g = self.inner.lock().unwrap();
+        g.threads[tid].status = Status::Finished;
+        g.threads[tid].granted = false;
+        self.cv.notify_all();
+    }
+
+    fn node_info(&self, node: usize) -> (Option<Arc<Databases>>, String, String, bool) {
+        let g = self.inner.lock().unwrap();
+        let n = &g.nodes[node];
+        (n.dbs.clone(), n.addr.clone(), n.dir.clone(), n.alive)
+    }
+
+    /// Body of the thread nun-db's supervisor spawned for a link (client side).
+    fn client_link_main(self: &Arc<Sim>, node: usize, mut req: nundb::verif::LinkRequest) {
+        let (_, own_addr, dir, _) = self.node_info(node);
+        nundb::verif::set_dir(Some(dir.clone()));
+        // which node is the peer? (a dead or unknown peer refuses the connection)
+        let peer = {
+            let g = self.inner.lock().unwrap();
+            g.nodes.iter().position(|n| n.addr == req.peer_address && n.alive)
+        };
+        let mut pre = VecDeque::new();
+        pre.push_back(format!("auth {} {}", USER, PWD));
+        if req.is_primary {
+            pre.push_back(format!("set-primary {}", req.own_address));
+        } else {
+            pre.push_back(format!("set-secoundary {}", req.own_address));
+            pre.push_back(format!("replicate-since {} {}", req.own_address, nundb::disk_ops::Oplog::last_op_time()));
+        }
+        let Some(peer) = peer else {
+            // connection refused: start_replication returns at once
+            let mut g = self.inner.lock().unwrap();
+            let step = g.steps;
+            g.trace.push(format!("[{}] n{} cannot connect to {}", step, node, req.peer_address));
+            g.expected_registrations = g.expected_registrations.saturating_sub(1);
+            self.cv.notify_all();
+            return;
+        };
+        // the serving side: its client and the channel it writes to
+        let (srv_client, srv_rx) = Client::new_empty_and_receiver();
+        let cmd_rx = std::mem::replace(&mut req.command_receiver, futures::channel::mpsc::channel(1).1);
+        let (client_tid, server_tid, link_id);
+        {
+            let mut g = self.inner.lock().unwrap();
+            link_id = g.links.len();
+            client_tid = g.threads.len();
+            g.threads.push(ThreadSt { name: format!("n{}->n{} client-link", node, peer), node, kind: Kind::ClientLink { link: link_id }, status: Status::Running, granted: false, inbox: VecDeque::new(), killed: false, early_ticks: 0, replies: vec![] });
+            server_tid = g.threads.len();
+            g.threads.push(ThreadSt { name: format!("n{} serves n{}", peer, node), node: peer, kind: Kind::Server { link: link_id }, status: Status::Running, granted: false, inbox: VecDeque::new(), killed: false, early_ticks: 0, replies: vec![] });
+            g.links.push(Link { from: node, to: peer, pre, cmd_rx: Some(cmd_rx), a2b: VecDeque::new(), srv_rx: Some(srv_rx), b2a: VecDeque::new(), server_tid, client_tid, open: true, cmd_closed: false, eof_sent_to_server: false, eof_sent_to_client: false });
+            let step = g.steps;
+            g.trace.push(format!("[{}] link {} opened: n{} -> n{} ({})", step, link_id, node, peer, if req.is_primary { "as primary" } else { "as secondary" }));
+        }
+        // the serving endpoint runs on its own thread
+        let sim2 = self.clone();
+        std::thread::spawn(move || sim2.server_main(server_tid, peer, srv_client));
+        // wait until the server endpoint is parked, then count this registration as done
+        {
+            let mut g = self.inner.lock().unwrap();
+            while g.threads[server_tid].status == Status::Running {
+                g = self.cv.wait(g).unwrap();
+            }
+            g.expected_registrations = g.expected_registrations.saturating_sub(1);
+            self.cv.notify_all();
+        }
+        self.enter(client_tid, &dir);
+        let (mut client, _rx) = Client::new_empty_and_receiver();
+        client.auth.store(true, std::sync::atomic::Ordering::Relaxed);
+        *client.cluster_member.lock().unwrap() = Some(ClusterMember { name: own_addr.clone(), role: ClusterRole::Secoundary, sender: None });
+        let dbs = req.dbs.clone();
+        let r = std::panic::catch_unwind(std::panic::AssertUnwindSafe(|| {
+            loop {
+                match self.wait_input(client_tid) {
+                    Input::Line(l) => {
+                        let m = l.trim().to_string();
+                        if m == "ok" || m.is_empty() {
+                            continue;
+                        }
+                        let _ = process_request(&m, &dbs, &mut client);
+                    }
+                    Input::Eof => break,
+                    Input::Killed => return false,
+                }
+            }
+            true
+        }));
+        match r {
+            Ok(true) => {
+                // reader ended; the writer half ends when the member (and its sender) is dropped
+                loop {
+                    self.park(client_tid, Status::WaitClose);
+                    let g = self.inner.lock().unwrap();
+                    if g.threads[client_tid].killed || g.links[link_id].cmd_closed {
+                        break;
+                    }
+                }
+            }
+            Ok(false) => {}
+            Err(e) => {
+                if e.downcast_ref::<KillToken>().is_none() {
+                    self.inner.lock().unwrap().panics.push(format!("client-link n{}: {}", node, panic_msg(&e)));
+                }
+            }
+        }
+        CTX.with(|c| *c.borrow_mut() = None);
+        self.finish(client_tid);
+        // returning lets the production code after start_replication run (member removal)
+    }
+
+    /// Serving side of a connection (mirror of tcp_ops::handle_client).
+    fn server_main(self: Arc<Sim>, tid: usize, node: usize, mut client: Client) {
+        let (dbs, _addr, dir, _) = self.node_info(node);
+        let Some(dbs) = dbs else {
+            self.finish(tid);
+            return;
+        };
+        self.enter(tid, &dir);
+        let _ = client.sender.try_send("ok \n".to_string());
+        let r = std::panic::catch_unwind(std::panic::AssertUnwindSafe(|| {
+            loop {
+                match self.wait_input(tid) {
+                    Input::Line(l) => match process_request(&l, &dbs, &mut client) {
+                        Response::Error { msg } => {
+                            let _ = client.sender.try_send(format!("error {} \n", msg));
+                        }
+                        _ => {
+                            let _ = client.sender.try_send("ok \n".to_string());
+                        }
+                    },
+                    Input::Eof => {
+                        // the peer went away
+                        process_request("unwatch-all", &dbs, &mut client);
+                        let member = { client.cluster_member.lock().unwrap().clone() };
+                        if let Some(m) = member {
+                            let (mut fake, _) = Client::new_empty_and_receiver();
+                            fake.auth.store(true, std::sync::atomic::Ordering::Relaxed);
+                            let line = match m.role {
+                                ClusterRole::Primary => format!("leave {}", m.name),
+                                _ => format!("replicate-leave {}", m.name),
+                            };
+                            let _ = process_request(&line, &dbs, &mut fake);
+                        }
+                        client.left(&dbs);
+                        break;
+                    }
+                    Input::Killed => break,
+                }
+            }
+        }));
+        if let Err(e) = r {
+            if e.downcast_ref::<KillToken>().is_none() {
+                self.inner.lock().unwrap().panics.push(format!("server n{}: {}", node, panic_msg(&e)));
+            }
+        }
+        CTX.with(|c| *c.borrow_mut() = None);
+        self.finish(tid);
+    }
+
+    /// A client session thread: executes the lines the controller hands it.
+    fn session_main(self: Arc<Sim>, tid: usize, node: usize) {
+        let (dbs, _addr, dir, _) = self.node_info(node);
+        let Some(dbs) = dbs else {
+            self.finish(tid);
+            return;
+        };
+        self.enter(tid, &dir);
+        let mut s = crate::common::session::Session::new();
+        let r = std::panic::catch_unwind(std::panic::AssertUnwindSafe(|| loop {
+            match self.wait_input(tid) {
+                Input::Line(l) => {
+                    let rep = s.call(&dbs, &l);
+                    let mut g = self.inner.lock().unwrap();
+                    g.threads[tid].replies.push((l, rep.resp, rep.pushed));
+                }
+                Input::Eof => {
+                    process_request("unwatch-all", &dbs, &mut s.client);
+                    s.client.left(&dbs);
+                    break;
+                }
+                Input::Killed => break,
+            }
+        }));
+        if let Err(e) = r {
+            if e.downcast_ref::<KillToken>().is_none() {
+                self.inner.lock().unwrap().panics.push(format!("session n{}: {}", node, panic_msg(&e)));
+            }
+        }
+        CTX.with(|c| *c.borrow_mut() = None);
+        self.finish(tid);
+    }
+
+    /// A transient connection that only carries `auth` + `join`.
+    fn join_conn_main(self: Arc<Sim>, tid: usize, node: usize) {
+        let (dbs, _addr, dir, _) = self.node_info(node);
+        let Some(dbs) = dbs else {
+            self.finish(tid);
+            return;
+        };
+        self.enter(tid, &dir);
+        let (mut client, _rx) = Client::new_empty_and_receiver();
+        let r = std::panic::catch_unwind(std::panic::AssertUnwindSafe(|| loop {
+            match self.wait_input(tid) {
+                Input::Line(l) => {
+                    let _ = process_request(&l, &dbs, &mut client);
+                }
+                Input::Eof => {
+                    process_request("unwatch-all", &dbs, &mut client);
+                    client.left(&dbs);
+                    break;
+                }
+                Input::Killed => break,
+            }
+        }));
+        if let Err(e) = r {
+            if e.downcast_ref::<KillToken>().is_none() {
+                self.inner.lock().unwrap().panics.push(format!("join-conn n{}: {}", node, panic_msg(&e)));
+            }
+        }
+        CTX.with(|c| *c.borrow_mut() = None);
+        self.finish(tid);
+    }
+
+    /// Start-up thread of a node: asks the listed replicas to let it join, then (later) the initial election.
+    fn starter_main(self: Arc<Sim>, tid: usize, node: usize, join: Vec<usize>) {
+        let (dbs, addr, dir, _) = self.node_info(node);
+        let Some(dbs) = dbs else {
+            self.finish(tid);
+            return;
+        };
+        self.enter(tid, &dir);
+        // ask_to_join_all_replicas: one transient connection per replica (sorted by address)
+        let mut targets: Vec<(String, usize)> = {
+            let g = self.inner.lock().unwrap();
+            join.iter().filter(|t| **t != node).map(|t| (g.nodes[*t].addr.clone(), *t)).collect()
+        };
+        targets.sort();
+        for (_a, t) in targets {
+            let alive = { self.inner.lock().unwrap().nodes[t].alive };
+            if !alive {
+                continue;
+            }
+            let jt = self.register(format!("n{} asks n{} to join", node, t), t, Kind::JoinConn);
+            {
+                let mut g = self.inner.lock().unwrap();
+                g.threads[jt].inbox.push_back(Input::Line(format!("auth {} {}", USER, PWD)));
+                g.threads[jt].inbox.push_back(Input::Line(format!("join {}", addr)));
+                g.threads[jt].inbox.push_back(Input::Eof);
+            }
+            let sim2 = self.clone();
+            std::thread::spawn(move || sim2.join_conn_main(jt, t));
+            let mut g = self.inner.lock().unwrap();
+            while g.threads[jt].status == Status::Running {
+                g = self.cv.wait(g).unwrap();
+            }
+        }
+        // start_inital_election after its 1 s sleep: a timer-class activity
+        let r = std::panic::catch_unwind(std::panic::AssertUnwindSafe(|| {
+            self.park_point(tid, "starter:initial-election");
+            if dbs.is_eligible() {
+                nundb::election_ops::start_election(&dbs);
+            }
+        }));
+        if let Err(e) = r {
+            if e.downcast_ref::<KillToken>().is_none() {
+                self.inner.lock().unwrap().panics.push(format!("starter n{}: {}", node, panic_msg(&e)));
+            }
+        }
+        CTX.with(|c| *c.borrow_mut() = None);
+        self.finish(tid);
+    }
+}
+
+// ================================================================ controller
+pub struct Cluster {
+    pub sim: Arc<Sim>,
+    pub rng: Rng,
+    pub base_dir: String,
+    pub sessions: BTreeMap<String, usize>,
+    pub budget: u64,
+    pub max_quiet_steps: u64,
+    pub max_early_ticks: u32,
+}
+
+#[derive(Debug, Clone, PartialEq)]
+pub enum Outcome {
+    Quiet(u64),
+    BudgetExceeded,
+    Stuck(String),
+}
+
+impl Cluster {
+    pub fn new(n: usize, seed: u64, tag: &str) -> Cluster {
+        install_hooks();
+        let sim = Sim::new();
+        let base_dir = fresh_dir(&format!("sim-{}-{}", tag, sim.id));
+        {
+            let mut g = sim.inner.lock().unwrap();
+            for i in 0..n {
+                let dir = format!("{}/n{}", base_dir, i);
+                std::fs::create_dir_all(&dir).unwrap();
+                g.nodes.push(SimNode { node: None, dbs: None, addr: format!("10.0.0.{}:3014", i + 1), dir, alive: false, process_id: 0, repl_q: VecDeque::new(), sup_q: VecDeque::new(), starts: 0 });
+            }
+        }
+        Cluster { sim, rng: Rng::new(seed), base_dir, sessions: BTreeMap::new(), budget: 6000, max_quiet_steps: 0, max_early_ticks: 4 }
+    }
+
+    pub fn n(&self) -> usize {
+        self.sim.inner.lock().unwrap().nodes.len()
+    }
+
+    pub fn dbs(&self, i: usize) -> Arc<Databases> {
+        self.sim.inner.lock().unwrap().nodes[i].dbs.clone().unwrap()
+    }
+
+    pub fn addr(&self, i: usize) -> String {
+        self.sim.inner.lock().unwrap().nodes[i].addr.clone()
+    }
+
+    pub fn alive(&self, i: usize) -> bool {
+        self.sim.inner.lock().unwrap().nodes[i].alive
+    }
+
+    fn note(&self, s: String) {
+        let mut g = self.sim.inner.lock().unwrap();
+        let step = g.steps;
+        g.trace.push(format!("[{}] {}", step, s));
+    }
+
+    /// Boots node i (process start). `join` = the --replicate-address list (node indices).
+    pub fn start_node(&mut self, i: usize, process_id: u128, join: &[usize]) {
+        let (dir, addr) = {
+            let g = self.sim.inner.lock().unwrap();
+            (g.nodes[i].dir.clone(), g.nodes[i].addr.clone())
+        };
+        let mut o = NodeOpts::simple(&dir);
+        o.addr = addr.clone();
+        o.process_id = process_id;
+        o.real_loop = true;
+        o.real_supervisor = true;
+        o.load_from_disk = true;
+        let mut node = Node::start(o);
+        node.keep_logs = false;
+        let dbs = node.dbs.clone();
+        REGISTRY.lock().unwrap().insert(Arc::as_ptr(&dbs) as usize, (self.sim.clone(), i));
+        {
+            let mut g = self.sim.inner.lock().unwrap();
+            let n = &mut g.nodes[i];
+            n.node = Some(node);
+            n.dbs = Some(dbs);
+            n.alive = true;
+            n.process_id = process_id;
+            n.repl_q.clear();
+            n.sup_q.clear();
+            n.starts += 1;
+        }
+        self.note(format!("n{} starts (process id {}, joins {:?})", i, process_id, join));
+        let tid = self.sim.register(format!("n{} starter", i), i, Kind::Starter);
+        let sim2 = self.sim.clone();
+        let j = join.to_vec();
+        std::thread::spawn(move || sim2.starter_main(tid, i, j));
+        self.wait_parked(tid);
+    }
+
+    fn wait_parked(&self, tid: usize) -> bool {
+        let mut g = self.sim.inner.lock().unwrap();
+        let deadline = Instant::now() + Duration::from_secs(30);
+        while g.threads[tid].status == Status::Running {
+            let (g2, _) = self.sim.cv.wait_timeout(g, Duration::from_millis(100)).unwrap();
+            g = g2;
+            if Instant::now() > deadline {
+                g.stuck = Some(format!("thread '{}' did not return the token within 30 s", g.threads[tid].name));
+                return false;
+            }
+        }
+        true
+    }
+
+    /// kill -9 of node i.
+    pub fn kill_node(&mut self, i: usize) {
+        self.note(format!("n{} is killed", i));
+        let mut to_wake = vec![];
+        {
+            let mut g = self.sim.inner.lock().unwrap();
+            g.nodes[i].alive = false;
+            if let Some(d) = g.nodes[i].dbs.as_ref() {
+                REGISTRY.lock().unwrap().remove(&(Arc::as_ptr(d) as usize));
+            }
+            for (tid, t) in g.threads.iter_mut().enumerate() {
+                if t.node == i && t.status != Status::Finished {
+                    t.killed = true;
+                    to_wake.push(tid);
+                }
+            }
+            for l in g.links.iter_mut() {
+                if l.from == i || l.to == i {
+                    l.open = false;
+                }
+            }
+        }
+        for tid in to_wake {
+            self.grant(tid);
+        }
+        let mut g = self.sim.inner.lock().unwrap();
+        // the node object (files closed, channels dropped)
+        g.nodes[i].node = None;
+        g.nodes[i].dbs = None;
+        g.nodes[i].repl_q.clear();
+        g.nodes[i].sup_q.clear();
+    }
+
+    /// Opens a client session on node i; returns its handle.
+    pub fn open_session(&mut self, name: &str, i: usize) {
+        let tid = self.sim.register(format!("session {} on n{}", name, i), i, Kind::Session);
+        let sim2 = self.sim.clone();
+        std::thread::spawn(move || sim2.session_main(tid, i));
+        self.wait_parked(tid);
+        self.sessions.insert(name.to_string(), tid);
+    }
+
+    /// Queue a command for a session (executed when the scheduler picks it).
+    pub fn send(&mut self, session: &str, line: &str) {
+        let tid = self.sessions[session];
+        let mut g = self.sim.inner.lock().unwrap();
+        g.threads[tid].inbox.push_back(Input::Line(line.to_string()));
+    }
+
+    pub fn close_session(&mut self, session: &str) {
+        let tid = self.sessions[session];
+        let mut g = self.sim.inner.lock().unwrap();
+        g.threads[tid].inbox.push_back(Input::Eof);
+    }
+
+    pub fn replies(&self, session: &str) -> Vec<(String, String, Vec<String>)> {
+        let tid = self.sessions[session];
+        self.sim.inner.lock().unwrap().threads[tid].replies.clone()
+    }
+
+    /// Runs one command on a session to completion right now (the session must be idle) and returns its reply.
+    pub fn call(&mut self, session: &str, line: &str) -> (String, Vec<String>) {
+        let tid = self.sessions[session];
+        let before = { self.sim.inner.lock().unwrap().threads[tid].replies.len() };
+        self.send(session, line);
+        // let only this thread run until it is idle again
+        for _ in 0..10_000 {
+            let st = { self.sim.inner.lock().unwrap().threads[tid].status.clone() };
+            match st {
+                Status::WaitInput => {
+                    let has = { !self.sim.inner.lock().unwrap().threads[tid].inbox.is_empty() };
+                    if !has {
+                        break;
+                    }
+                    self.grant(tid);
+                }
+                Status::AtPoint(_) => {
+                    self.grant(tid);
+                }
+                _ => break,
+            }
+        }
+        let g = self.sim.inner.lock().unwrap();
+        let r = &g.threads[tid].replies;
+        if r.len() > before {
+            (r[r.len() - 1].1.clone(), r[r.len() - 1].2.clone())
+        } else {
+            ("<no reply>".to_string(), vec![])
+        }
+    }
+
+    /// Let thread `tid` run until it gives the token back.
+    fn grant(&self, tid: usize) -> bool {
+        {
+            let mut g = self.sim.inner.lock().unwrap();
+            if g.threads[tid].status == Status::Finished {
+                return true;
+            }
+            g.threads[tid].granted = true;
+            g.threads[tid].status = Status::Running;
+            self.sim.cv.notify_all();
+        }
+        self.wait_parked(tid)
+    }
+
+    /// Move what the nodes and links produced into the scheduler's queues.
+    fn refresh(&self) {
+        let mut g = self.sim.inner.lock().unwrap();
+        let inner = &mut *g;
+        for n in inner.nodes.iter_mut() {
+            if !n.alive {
+                continue;
+            }
+            if let Some(node) = n.node.as_mut() {
+                while let Some(m) = node.take_repl() {
+                    n.repl_q.push_back(m);
+                }
+                while let Some(m) = node.take_sup() {
+                    n.sup_q.push_back(m);
+                }
+            }
+        }
+        for l in inner.links.iter_mut() {
+            if let Some(rx) = l.cmd_rx.as_mut() {
+                loop {
+                    match rx.try_next() {
+                        Ok(Some(m)) => l.a2b.push_back(m),
+                        Ok(None) => {
+                            l.cmd_closed = true;
+                            break;
+                        }
+                        Err(_) => break,
+                    }
+                }
+            }
+            if let Some(rx) = l.srv_rx.as_mut() {
+                loop {
+                    match rx.try_next() {
+                        // the client side ignores the plain "ok" status lines: they are not scheduled
+                        Ok(Some(m)) => {
+                            if m.trim() != "ok" {
+                                l.b2a.push_back(m)
+                            }
+                        }
+                        _ => break,
+                    }
+                }
+            }
+        }
+    }
+
+    /// One scheduling step. Returns false when nothing is enabled (quiescent).
+    fn step(&mut self) -> bool {
+        self.refresh();
+        #[derive(Debug)]
+        enum Act {
+            DeliverToServer(usize),
+            DeliverToClient(usize),
+            EofToServer(usize),
+            EofToClient(usize),
+            FinishClient(usize),
+            PumpRepl(usize),
+            PumpSup(usize),
+            Resume(usize),
+            Tick(usize),
+            SessionOp(usize),
+            JoinStep(usize),
+        }
+        let mut acts: Vec<Act> = vec![];
+        let mut ticks: Vec<Act> = vec![];
+        {
+            let g = self.sim.inner.lock().unwrap();
+            for (li, l) in g.links.iter().enumerate() {
+                let srv = &g.threads[l.server_tid];
+                let cli = &g.threads[l.client_tid];
+                let from_alive = g.nodes[l.from].alive && !cli.killed;
+                let to_alive = g.nodes[l.to].alive && !srv.killed;
+                if srv.status == Status::WaitInput && to_alive {
+                    if from_alive && l.open && (!l.pre.is_empty() || !l.a2b.is_empty()) {
+                        acts.push(Act::DeliverToServer(li));
+                    } else if (!from_alive || !l.open) && !l.eof_sent_to_server {
+                        acts.push(Act::EofToServer(li));
+                    }
+                }
+                if cli.status == Status::WaitInput && from_alive {
+                    if !l.b2a.is_empty() {
+                        acts.push(Act::DeliverToClient(li));
+                    } else if (!to_alive || !l.open || srv.status == Status::Finished) && !l.eof_sent_to_client {
+                        acts.push(Act::EofToClient(li));
+                    }
+                }
+                if cli.status == Status::WaitClose && l.cmd_closed {
+                    acts.push(Act::FinishClient(li));
+                }
+            }
+            for (ni, n) in g.nodes.iter().enumerate() {
+                if n.alive {
+                    if !n.repl_q.is_empty() {
+                        acts.push(Act::PumpRepl(ni));
+                    }
+                    if !n.sup_q.is_empty() {
+                        acts.push(Act::PumpSup(ni));
+                    }
+                }
+            }
+            for (tid, t) in g.threads.iter().enumerate() {
+                if t.killed {
+                    continue;
+                }
+                match (&t.status, &t.kind) {
+                    (Status::AtPoint(site), _) => {
+                        if is_tick_site(site) {
+                            ticks.push(Act::Tick(tid));
+                        } else {
+                            acts.push(Act::Resume(tid));
+                        }
+                    }
+                    (Status::WaitInput, Kind::Session) if !t.inbox.is_empty() => acts.push(Act::SessionOp(tid)),
+                    (Status::WaitInput, Kind::JoinConn) if !t.inbox.is_empty() => acts.push(Act::JoinStep(tid)),
+                    _ => {}
+                }
+            }
+        }
+        // a tick is normally taken only when nothing else can happen (messages are faster than timeouts);
+        // a few early ticks per wait are allowed so that a waiting election also observes intermediate states,
+        // never enough of them to reach the election timeout (NUN_ELECTION_TIMEOUT / 2 ms ticks)
+        let early: Vec<usize> = {
+            let g = self.sim.inner.lock().unwrap();
+            // (never the start-up timer: one second against milliseconds)
+            // and never the 100 ms settle sleep: only the 2 ms polls of the two wait loops
+            ticks.iter().filter_map(|a| if let Act::Tick(t) = a {
+                let short_poll = matches!(&g.threads[*t].status, Status::AtPoint(s) if s == "election:wait_registered" || s == "election:wait_acks");
+                if g.threads[*t].early_ticks < self.max_early_ticks && short_poll { Some(*t) } else { None }
+            } else { None }).collect()
+        };
+        if !acts.is_empty() && !early.is_empty() && self.rng.chance(1, 6) {
+            let t = early[self.rng.below(early.len())];
+            {
+                let mut g = self.sim.inner.lock().unwrap();
+                g.steps += 1;
+                g.ticks += 1;
+                g.decisions.push(1000 + t as u32);
+                g.threads[t].early_ticks += 1;
+            }
+            self.grant(t);
+            return true;
+        }
+        let is_tick = acts.is_empty();
+        let pool = if acts.is_empty() { &mut ticks } else { &mut acts };
+        if pool.is_empty() {
+            return false;
+        }
+        let idx = self.rng.below(pool.len());
+        let act = pool.swap_remove(idx);
+        {
+            let mut g = self.sim.inner.lock().unwrap();
+            g.steps += 1;
+            g.decisions.push(idx as u32);
+            if is_tick {
+                g.ticks += 1;
+            }
+        }
+        match act {
+            Act::DeliverToServer(li) => {
+                let (tid, line) = {
+                    let mut g = self.sim.inner.lock().unwrap();
+                    let step = g.steps;
+                    let l = &mut g.links[li];
+                    let line = if let Some(p) = l.pre.pop_front() { p } else { l.a2b.pop_front().unwrap() };
+                    let (from, to, tid) = (l.from, l.to, l.server_tid);
+                    g.link_log.push((step, from, to, line.clone()));
+                    g.threads[tid].inbox.push_back(Input::Line(line.clone()));
+                    (tid, line)
+                };
+                let _ = line;
+                self.grant(tid);
+            }
+            Act::DeliverToClient(li) => {
+                let tid = {
+                    let mut g = self.sim.inner.lock().unwrap();
+                    let step = g.steps;
+                    let l = &mut g.links[li];
+                    let line = l.b2a.pop_front().unwrap();
+                    let (from, to, tid) = (l.to, l.from, l.client_tid);
+                    if line.trim() != "ok" {
+                        g.link_log.push((step, from, to, line.trim_end().to_string()));
+                    }
+                    g.threads[tid].inbox.push_back(Input::Line(line));
+                    tid
+                };
+                self.grant(tid);
+            }
+            Act::EofToServer(li) => {
+                let tid = {
+                    let mut g = self.sim.inner.lock().unwrap();
+                    g.links[li].eof_sent_to_server = true;
+                    g.links[li].open = false;
+                    let tid = g.links[li].server_tid;
+                    g.threads[tid].inbox.push_back(Input::Eof);
+                    let step = g.steps;
+                    let (f, t) = (g.links[li].from, g.links[li].to);
+                    g.trace.push(format!("[{}] n{} sees the connection from n{} close", step, t, f));
+                    tid
+                };
+                self.grant(tid);
+            }
+            Act::EofToClient(li) => {
+                let tid = {
+                    let mut g = self.sim.inner.lock().unwrap();
+                    g.links[li].eof_sent_to_client = true;
+                    g.links[li].open = false;
+                    let tid = g.links[li].client_tid;
+                    g.threads[tid].inbox.push_back(Input::Eof);
+                    let step = g.steps;
+                    let (f, t) = (g.links[li].from, g.links[li].to);
+                    g.trace.push(format!("[{}] n{} sees its link to n{} close", step, f, t));
+                    tid
+                };
+                self.grant(tid);
+            }
+            Act::FinishClient(li) => {
+                let tid = { self.sim.inner.lock().unwrap().links[li].client_tid };
+                self.grant(tid);
+                // the production code after start_replication runs on that thread; give it a moment to finish
+                std::thread::sleep(Duration::from_millis(1));
+            }
+            Act::PumpRepl(ni) => {
+                let (m, mut node) = {
+                    let mut g = self.sim.inner.lock().unwrap();
+                    let m = g.nodes[ni].repl_q.pop_front().unwrap();
+                    (m, g.nodes[ni].node.take().unwrap())
+                };
+                let r = std::panic::catch_unwind(std::panic::AssertUnwindSafe(|| node.feed_repl(m.clone())));
+                let mut g = self.sim.inner.lock().unwrap();
+                g.nodes[ni].node = Some(node);
+                if let Err(e) = r {
+                    g.panics.push(format!("replication loop n{} on '{}': {}", ni, m, panic_msg(&e)));
+                }
+            }
+            Act::PumpSup(ni) => {
+                let (m, mut node, expect) = {
+                    let mut g = self.sim.inner.lock().unwrap();
+                    let m = g.nodes[ni].sup_q.pop_front().unwrap();
+                    let mut p = m.splitn(2, ' ');
+                    let cmd = p.next().unwrap_or("");
+                    let name = p.next().unwrap_or("").to_string();
+                    let dbs = g.nodes[ni].dbs.clone().unwrap();
+                    let expect = matches!(cmd, "secoundary" | "primary" | "new-secoundary") && !dbs.has_cluster_memeber(&name);
+                    if expect {
+                        g.expected_registrations += 1;
+                    }
+                    let step = g.steps;
+                    g.trace.push(format!("[{}] n{} supervisor: {}", step, ni, m));
+                    (m, g.nodes[ni].node.take().unwrap(), expect)
+                };
+                let r = std::panic::catch_unwind(std::panic::AssertUnwindSafe(|| node.feed_sup(m.clone())));
+                {
+                    let mut g = self.sim.inner.lock().unwrap();
+                    g.nodes[ni].node = Some(node);
+                    if let Err(e) = &r {
+                        g.panics.push(format!("supervisor n{} on '{}': {}", ni, m, panic_msg(e)));
+                        if expect {
+                            g.expected_registrations = g.expected_registrations.saturating_sub(1);
+                        }
+                    }
+                }
+                if expect && r.is_ok() {
+                    // the thread the supervisor spawned registers itself as the client side of the new link
+                    let mut g = self.sim.inner.lock().unwrap();
+                    let deadline = Instant::now() + Duration::from_secs(30);
+                    while g.expected_registrations > 0 {
+                        let (g2, _) = self.sim.cv.wait_timeout(g, Duration::from_millis(50)).unwrap();
+                        g = g2;
+                        if Instant::now() > deadline {
+                            g.stuck = Some("a link thread spawned by the supervisor never registered".into());
+                            g.expected_registrations = 0;
+                            break;
+                        }
+                    }
+                    // and parks waiting for input
+                    let tids: Vec<usize> = g.threads.iter().enumerate().filter(|(_, t)| t.status == Status::Running).map(|(i, _)| i).collect();
+                    drop(g);
+                    for t in tids {
+                        self.wait_parked(t);
+                    }
+                }
+            }
+            Act::Resume(tid) | Act::Tick(tid) | Act::SessionOp(tid) | Act::JoinStep(tid) => {
+                self.grant(tid);
+            }
+        }
+        true
+    }
+
+    /// Run until nothing is enabled (quiescence), the step budget is exhausted or a thread is stuck.
+    pub fn run_until_quiet(&mut self) -> Outcome {
+        let start = { self.sim.inner.lock().unwrap().steps };
+        loop {
+            if let Some(s) = { self.sim.inner.lock().unwrap().stuck.clone() } {
+                return Outcome::Stuck(s);
+            }
+            let now = { self.sim.inner.lock().unwrap().steps };
+            if now - start > self.budget {
+                return Outcome::BudgetExceeded;
+            }
+            if !self.step() {
+                let n = now - start;
+                self.max_quiet_steps = self.max_quiet_steps.max(n);
+                return Outcome::Quiet(n);
+            }
+        }
+    }
+
+    /// Runs at most `k` scheduling steps.
+    pub fn run_steps(&mut self, k: u64) -> bool {
+        for _ in 0..k {
+            if !self.step() {
+                return false;
+            }
+        }
+        true
+    }
+
+    pub fn declutter(&mut self, i: usize) {
+        let mut node = { self.sim.inner.lock().unwrap().nodes[i].node.take().unwrap() };
+        // whatever the timer finds queued goes through the loop first, as the loop thread would have done
+        let r = std::panic::catch_unwind(std::panic::AssertUnwindSafe(|| {
+            node.enter();
+            nundb::disk_ops::verif_declutter(&node.dbs);
+        }));
+        let mut g = self.sim.inner.lock().unwrap();
+        g.nodes[i].node = Some(node);
+        if let Err(e) = r {
+            g.panics.push(format!("declutter n{}: {}", i, panic_msg(&e)));
+        }
+    }
+
+    // ------------------------------------------------------------ observation
+    pub fn roles(&self) -> Vec<Option<String>> {
+        let g = self.sim.inner.lock().unwrap();
+        g.nodes.iter().map(|n| if n.alive { n.dbs.as_ref().map(|d| d.get_role().to_string()) } else { None }).collect()
+    }
+
+    /// For every live node: the primary named by its cluster state (None if none, "many" if several)
+    pub fn views(&self) -> Vec<Option<String>> {
+        let g = self.sim.inner.lock().unwrap();
+        g.nodes
+            .iter()
+            .map(|n| {
+                if !n.alive {
+                    return None;
+                }
+                let d = n.dbs.as_ref().unwrap();
+                let cs = d.cluster_state.lock().unwrap();
+                let members = cs.members.lock().unwrap();
+                let prims: Vec<String> = members.values().filter(|m| m.role == ClusterRole::Primary).map(|m| m.name.clone()).collect();
+                Some(match prims.len() {
+                    0 => "none".to_string(),
+                    1 => prims[0].clone(),
+                    _ => "many".to_string(),
+                })
+            })
+            .collect()
+    }
+
+    pub fn members(&self, i: usize) -> Vec<String> {
+        let g = self.sim.inner.lock().unwrap();
+        let d = g.nodes[i].dbs.as_ref().unwrap();
+        let cs = d.cluster_state.lock().unwrap();
+        let members = cs.members.lock().unwrap();
+        let mut m: Vec<String> = members.values().map(|m| format!("{}:{}{}", m.name, m.role, if m.sender.is_some() { "" } else { "(no link)" })).collect();
+        m.sort();
+        m
+    }
+
+    pub fn pending_ops(&self, i: usize) -> usize {
+        let g = self.sim.inner.lock().unwrap();
+        g.nodes[i].dbs.as_ref().map(|d| d.pending_opps.read().unwrap().len()).unwrap_or(0)
+    }
+
+    /// db -> key -> (value, version) of live keys on node i (without $connections)
+    pub fn dataset(&self, i: usize) -> BTreeMap<String, BTreeMap<String, (String, i32)>> {
+        let g = self.sim.inner.lock().unwrap();
+        let mut out = BTreeMap::new();
+        if let Some(d) = g.nodes[i].dbs.as_ref() {
+            let map = d.map.read().unwrap();
+            for (n, db) in map.iter() {
+                if n == "$admin" {
+                    continue;
+                }
+                let m = db.map.read().unwrap();
+                let keys: BTreeMap<String, (String, i32)> = m
+                    .iter()
+                    .filter(|(k, v)| v.state != nundb::bo::ValueStatus::Deleted && k.as_str() != "$connections")
+                    .map(|(k, v)| (k.clone(), (v.value.clone(), v.version)))
+                    .collect();
+                out.insert(format!("{} [{}]", n, db.metadata.consensus_strategy), keys);
+            }
+        }
+        out
+    }
+
+    pub fn trace(&self) -> Vec<String> {
+        self.sim.inner.lock().unwrap().trace.clone()
+    }
+
+    pub fn link_log(&self) -> Vec<(u64, usize, usize, String)> {
+        self.sim.inner.lock().unwrap().link_log.clone()
+    }
+
+    pub fn steps(&self) -> u64 {
+        self.sim.inner.lock().unwrap().steps
+    }
+
+    pub fn panics(&self) -> Vec<String> {
+        self.sim.inner.lock().unwrap().panics.clone()
+    }
+
+    pub fn wins(&self) -> Vec<(usize, String)> {
+        self.sim.inner.lock().unwrap().election_wins.clone()
+    }
+
+    pub fn decisions_hash(&self) -> u64 {
+        let g = self.sim.inner.lock().unwrap();
+        let s: String = g.decisions.iter().map(|d| format!("{},", d)).collect();
+        fnv(&s)
+    }
+
+    /// Stops every thread of the simulation and removes its files.
+    pub fn shutdown(mut self) {
+        let n = self.n();
+        for i in 0..n {
+            if self.alive(i) {
+                self.kill_node(i);
+            }
+        }
+        // threads that were not tied to a live node any more
+        let tids: Vec<usize> = {
+            let mut g = self.sim.inner.lock().unwrap();
+            let mut v = vec![];
+            for (tid, t) in g.threads.iter_mut().enumerate() {
+                if t.status != Status::Finished {
+                    t.killed = true;
+                    v.push(tid);
+                }
+            }
+            v
+        };
+        for t in tids {
+            self.grant(t);
+        }
+        let _ = std::fs::remove_dir_all(&self.base_dir);
+    }
+}
+
+// ================================================================ C15 end-to-end part
 pub struct C15Cluster {
     pub runs: u64,
     pub acks: u64,
 }
 
-pub fn c15_end_to_end(_v: &Verdicts, _tier: &str) -> C15Cluster {
-    C15Cluster { runs: 0, acks: 0 }
+pub fn c15_end_to_end(v: &crate::common::kf::Verdicts, tier: &str) -> C15Cluster {
+    std::env::set_var("NUN_ELECTION_TIMEOUT", "30");
+    let runs = if tier == "thorough" { 200 } else { 24 };
+    let mut out = C15Cluster { runs: 0, acks: 0 };
+    for r in 0..runs {
+        let mut c = Cluster::new(3, seed() * 1000 + r, "c15");
+        c.start_node(0, 100, &[]);
+        if c.run_until_quiet() != Outcome::Quiet(0) && false {}
+        c.start_node(1, 200, &[0, 1]);
+        let _ = c.run_until_quiet();
+        c.start_node(2, 300, &[0, 1, 2]);
+        let q = c.run_until_quiet();
+        if !matches!(q, Outcome::Quiet(_)) {
+            v.inconclusive(&format!("cluster run for C15 did not become quiet: {:?}", q));
+            c.shutdown();
+            continue;
+        }
+        // a few writes on the primary, then quiescence with stable membership
+        let prim = (0..3).find(|i| c.roles()[*i].as_deref() == Some("Primary"));
+        if let Some(p) = prim {
+            c.open_session("w", p);
+            c.call("w", "auth admin pwd");
+            c.call("w", "create-db d t");
+            c.call("w", "use-db d t");
+            for k in 0..4 {
+                c.send("w", &format!("set k{} v{}", k, k));
+            }
+            let _ = c.run_until_quiet();
+        }
+        let acks = c.link_log().iter().filter(|l| l.3.starts_with("ack ")).count() as u64;
+        out.acks += acks;
+        out.runs += 1;
+        for i in 0..3 {
+            let p = c.pending_ops(i);
+            if p != 0 {
+                v.report(
+                    json!({"check": "pending", "problem": "pending-count-not-zero-at-quiescence", "node_role": c.roles()[i].clone().unwrap_or_default()}),
+                    json!({"node": i, "pending": p, "trace": c.trace(), "links": c.link_log().iter().map(|l| format!("[{}] n{}->n{} {}", l.0, l.1, l.2, l.3)).collect::<Vec<_>>()}),
+                );
+                break;
+            }
+        }
+        c.shutdown();
+    }
+    out
 }
